@@ -24,7 +24,7 @@ RULE = ('k<=3 operands x every ordered other-axis selection (1..3 of 3 ids) per 
         'cell; distinct by (axis, selections, metadata config, entry point)')
 
 U = ['i1', 'i2', 'i3']
-POOLS = [['a1', 'a2'], ['b1'], ['c2', 'c1']]
+POOLS = [['a1', 'a2'], ['b1_a_much_longer_identifier'], ['c2', 'c1x', 'ü3']]   # later operands have wider ids
 
 
 def selections(kmax=3):
@@ -91,7 +91,15 @@ def check(case, acc, tmp):
                     acc.trans += 1
                     try:
                         if entry == 'Table.concat':
-                            R = reals[0].concat(reals[1:], axis=axis)
+                            others = reals[1:]
+                            R = reals[0].concat(others, axis=axis)
+                            # the caller's list is an input: using it again must give the same table
+                            if len(others) != k - 1 or any(a is not b for a, b in zip(others, reals[1:])):
+                                acc.violation('concat:operand-list-modified', 'concat changed the list of operands '
+                                              'it was given (%d entries, %d passed)' % (len(others), k - 1),
+                                              dict(case, **kw))
+                                continue
+                            R = reals[0].concat(others, axis=axis)
                         elif entry == 'single':
                             R = reals[0].concat(reals[1], axis=axis)
                         else:
